@@ -486,6 +486,10 @@ package evaluator
 //@   loop 4 invariant 0 <= (atentry(3, ncalls) - ((len(args) > 0 || len(params) > 0) ? 2 : 1)) && (atentry(3, ncalls) - ((len(args) > 0 || len(params) > 0) ? 2 : 1)) < ncalls && arg2((atentry(3, ncalls) - ((len(args) > 0 || len(params) > 0) ? 2 : 1))) == symhash("\\0") && isT(arg3((atentry(3, ncalls) - ((len(args) > 0 || len(params) > 0) ? 2 : 1))), *object.PanArr) && fresh(arg3((atentry(3, ncalls) - ((len(args) > 0 || len(params) > 0) ? 2 : 1)))) && len(as(arg3((atentry(3, ncalls) - ((len(args) > 0 || len(params) > 0) ? 2 : 1))), *object.PanArr).Elems) >= len(args)
 //@   loop 4 invariant forall j int :: {as(arg3((atentry(3, ncalls) - ((len(args) > 0 || len(params) > 0) ? 2 : 1))), *object.PanArr).Elems[j]} 0 <= j && j < len(args) ==> as(arg3((atentry(3, ncalls) - ((len(args) > 0 || len(params) > 0) ? 2 : 1))), *object.PanArr).Elems[j] == args[j]
 //@   loop 4 invariant len(args) > 0 ==> arg2((atentry(3, ncalls) - ((len(args) > 0 || len(params) > 0) ? 2 : 1)) + 1) == symhash("\\") && arg3((atentry(3, ncalls) - ((len(args) > 0 || len(params) > 0) ? 2 : 1)) + 1) == args[0] && (atentry(3, ncalls) - ((len(args) > 0 || len(params) > 0) ? 2 : 1)) + 1 < ncalls
+// keyword parameters: each takes the value passed under its name if there is one (whatever that value is), else
+// its default; every keyword argument received is also bound as `\\name`
+//@   loop 3 step ncalls == prev(ncalls) + 1 && arg2(prev(ncalls)) == symHash && arg3(prev(ncalls)) == (has(*kwargs.Pairs, symHash) ? (*kwargs.Pairs)[symHash].Value : defaultPair.Value)
+//@   loop 4 step ncalls == prev(ncalls) + 1 && arg3(prev(ncalls)) == kwargPair.Value
 //
 //@ func evaluator.paddedArgs(args, params) res
 //@   ensures  len(res) == (len(args) >= len(params) ? len(args) : len(params))
